@@ -240,6 +240,7 @@ ExportFails(e) ==
       JCount(tr) == Cardinality({i \in 1..Len(e.json_links) : JT(e.json_links[i]) = tr})
       G1 == /\ Len(e.segs) = NN /\ \A n \in 1..NN : e.segs[n][1] = n - 1 /\ e.segs[n][2] = Ascii(nodes[n].s)
             /\ e.gfa_other_lines = 0 /\ e.file_same /\ e.tags_same
+            /\ Len(e.tags) = NN /\ \A n \in 1..NN : e.tags[n] = "LN:i:" \o ToString(Len(nodes[n].s))
       G2 == \A i \in Lines : WellFormedLink(e.links[i]) /\ GfaLink(e.links[i]) \in SpecLinks          \* no invented link
       G3 == \A lk \in SpecLinks : Count(lk) >= 1                                                       \* none lost
       G4 == (\A i \in Lines : WellFormedLink(e.links[i])) =>
